@@ -3,6 +3,7 @@
 package bwrun
 
 import (
+	"path"
 	"fmt"
 	"sort"
 	"strings"
@@ -123,6 +124,17 @@ func newWorld(sc *bw.Scenario) *world {
 		for pa, f := range fl {
 			if f.Kind == "file" {
 				keys = append(keys, pa+"\x00"+f.Body)
+			}
+			if f.Kind == "link" && !strings.HasPrefix(f.Target, "/") {
+				// a link to a directory of the package is a path of its own (a link to a file reads
+				// as that file's content, which the statement's "same contents" does not separate)
+				d := ""
+				if i := strings.LastIndex(pa, "/"); i >= 0 {
+					d = pa[:i]
+				}
+				if t, ok := fl[path.Clean(path.Join(d, f.Target))]; ok && t.Kind == "dir" {
+					keys = append(keys, pa+"\x00symlink-to-directory:"+f.Target)
+				}
 			}
 		}
 		sort.Strings(keys)
